@@ -183,9 +183,18 @@ RULE = ('expression trees over {numeric literal, unit name, *, /, ^} generated t
         'malformed stream = 1-2 character edits of valid renderings plus a fixed list; working-unit configurations = SI, '
         'the atomman default, numericalunits seeds, and named choices (every non-empty subset of the five keywords incl. the '
         'over-determined and the five-keyword one, names drawn from the generated table by dimension, every name of every '
-        'kind at least once); values scalar/list/nested arrays of dyadic and generic doubles; set_literal terms '
-        '"number[ unit-expression]"; all eight style tables entry by entry; distinct = distinct (configuration, string) '
-        'resp. (choice) canonical form; non-trivial = the model returns a value (not an error case)')
+        'kind at least once); values: float / int64 / int32 arrays, lists, tuples, mixed int-float lists, python and numpy '
+        'scalars of shapes (), (1,), (1,1), (3,), (2,2), (2,1,3), (5,) and empty arrays, dyadic, generic and integer entries; '
+        'set_literal terms "[blanks]value[ unit-expression][blanks]" with value a numeral, a (nested) list / tuple literal '
+        'or a python-specific spelling (leading-zero integer, +2, "1, 2", "1,", [], ragged, unbalanced); numerals with '
+        'leading zeros; nesting 8-40 deep; sessions = sequences of configurations in one process: every ordered pair of a '
+        'core list (named choices differing in exactly one base quantity m / kg / s / C, charge named / absent / SI by '
+        'name, energy fixing each of the three mechanical base units, SI, seeds, numericalunits set directly for K alone), '
+        'A B A B for every unordered pair, one-keyword-at-a-time random walks with failing / refused resets and steps '
+        'back, a pool of ~100 expressions over every base dimension re-evaluated after every step as first spelled and '
+        'with a blank run no earlier call has seen; all eight style tables entry by entry; distinct = distinct '
+        '(configuration, string) resp. (choice) resp. (step, string) canonical form; non-trivial = the model returns a '
+        'value (not an error case)')
 ASSUMPTIONS = [
     'x ** 0.5 in reset_units is a parameter r of the model with r*r = x and r != 0 (the harness feeds the double square root)',
     'IEEE double rounding: each float operation of the implementation has relative error <= 2^-53, libm pow <= 2 ulp, '
@@ -200,6 +209,12 @@ ASSUMPTIONS = [
     'string and then acts as an operator of the enclosing expression: both classes are outside the model (the model '
     'answers "error") and are not sent to the real code',
     'exception classes are not modelled: every exception of the real code corresponds to the model answering none',
+    'the value part of set_literal is ast.literal_eval restricted to numbers ([+-]numeral, no leading-zero integers) and '
+    'nested lists / tuples of them; 1_000, hex / complex literals, a sign separated from its digits by blanks, strings, '
+    'booleans and blanks other than the four are outside the model; np.asarray on a ragged nesting raises (numpy >= 1.24)',
+    'a reset_units(**kwargs) that raises half-way leaves uc.unit at the SI baseline (numericalunits\' own attributes are '
+    'then inconsistent with it; the model follows uc.unit); numericalunits set directly + build_unit() is taken as a way '
+    'of putting working units in force (the only way to move K alone)',
 ]
 TRUSTED = ['numericalunits (the generated table is measured from the installed package on every run)', 'numpy broadcasting',
            'the size guard of the model driver (lean/Drivers/C09.lean: a request whose exact value would need > 2*10^5 bits is '
@@ -2345,12 +2360,17 @@ MANIFEST = {
             'evaluates to (v, dimension d) under SI evaluates to v * m^d1 kg^d2 s^d3 C^d4 K^d5 under any base-unit '
             'scalings, hence conversions between equal-dimension expressions do not depend on the working units; after '
             'reset_units with any non-over-determined choice of <= 4 named kinds every chosen unit of that dimension is '
-            'exactly 1 (square root as a parameter); set_literal("numeral unit") is the numeral times the parsed factor; '
+            'exactly 1 (square root as a parameter); set_literal("value unit"), value a number or nested list / tuple '
+            'literal, is the array of the value times the parsed factor; the module as a session (state = the five base '
+            'scalings): a read after any history is answered from the scalings the last state-changing call left, chosen '
+            'units are 1 and equal-dimension conversions invariant in any session; '
             'all mechanical entries of the 8 LAMMPS style tables have the '
             'dimension of their label (kernel-decided on tables regenerated from style.py and numericalunits on every '
             'run). The model is tied to the code by the table translators and a differential run of uc.parse / '
             'set_in_units / get_in_units / set_literal / reset_units / style.unit against the compiled model on '
-            'grammar-generated and malformed strings under SI, default, seeded and named working units.',
+            'grammar-generated and malformed strings under SI, default, seeded and named working units, and of whole '
+            'sessions (all ordered pairs of configurations differing in one base quantity, random one-keyword walks) '
+            'against the session model.',
     'note': 'Trusted: Lean kernel + propext/Classical.choice/Quot.sound; the table translators (harness/props/c09.py); '
             'numericalunits and numpy; x**0.5 is a parameter with r*r = x; float rounding by first-order bounds derived '
             'from the expression tree; non-integer exponents, rtHz, exotic float() spellings and two malformed classes '
